@@ -245,6 +245,15 @@ func genC14(c *Ctx) {
 		p := pick(c, []string{"/", "https://example.com/", "//h/", "/a?", "/a#", "/a/b"}) + c.randFrom(c14PrefixPieces, 2)
 		tmpl2(p, c.randFrom(c14DataPieces, 3), c.randFrom(c14PrefixPieces, 2), c.randFrom(c14DataPieces, 3), "seeded-two-actions")
 	}
+	// ---- prefixes whose delimiters are written as character references ('#' inside a numeric reference is not a fragment)
+	for _, p := range []string{"/static&#47;v1&#47;", "https://cdn.example.com/v1&#x2f;", "/a&#45;b/", "/a&sol;", "/a&#x2F;b&#x2f;", "/a/&#46;", "/a&#47;&#x2e;",
+		"/a&#63;q=", "/a&quest;q=", "/a&num;", "/a&#35;", "/a/&amp;", "/s&#47;"} {
+		for _, d := range dots {
+			tmpl(p, d, "charref-delimiter-prefix")
+			tmpl2(p, d, "&#47;", ".", "charref-delimiter-prefix")
+			tmpl2(p, "x", "&#47;.", d, "charref-delimiter-prefix")
+		}
+	}
 	// ---- exhaustive small domains
 	leaf("", "len0")
 	prefix("", "len0")
